@@ -66,6 +66,21 @@ pub struct FaultPlan {
     pub after_effect: bool,
 }
 
+thread_local! {
+    /// storage operations of this thread are not logged (read-back by the harness itself)
+    pub static THREAD_QUIET: std::cell::Cell<bool> = const { std::cell::Cell::new(false) };
+}
+/// run `f` with the calling thread's storage operations unlogged
+pub fn quietly<T>(f: impl FnOnce() -> T) -> T {
+    let prev = THREAD_QUIET.with(|q| q.replace(true));
+    let r = std::panic::catch_unwind(std::panic::AssertUnwindSafe(f));
+    THREAD_QUIET.with(|q| q.set(prev));
+    match r {
+        Ok(v) => v,
+        Err(p) => std::panic::resume_unwind(p),
+    }
+}
+
 pub type Gate = Arc<dyn Fn(&OpInfo, bool) + Send + Sync>;
 
 pub struct State {
@@ -201,7 +216,7 @@ impl SimDir {
     }
 
     fn ev(&self, g: &mut State, role: &str, op: &str, path: &Path, extra: Value) {
-        if self.quiet.load(std::sync::atomic::Ordering::SeqCst) {
+        if self.quiet.load(std::sync::atomic::Ordering::SeqCst) || THREAD_QUIET.with(|q| q.get()) {
             return;
         }
         if g.snaps.is_some() && (op != "write" || g.opcount % g.snap_write_stride.max(1) == 0) {
